@@ -253,6 +253,14 @@ func (d *Document) GetPageSettings() *PageSettings {
 		settings.GutterWidth = twipsToMM(parseFloat(sectPr.PageMargins.Gutter))
 	}
 
+	// 页面设置已经写入过而没有 w:docGrid：网格被清除（或原文档本来就没有），
+	// 不能再报告默认网格，否则下一次任何设置调用都会把网格加回去
+	if sectPr.DocGrid == nil && sectPr.PageSize != nil {
+		settings.DocGridType = ""
+		settings.DocGridLinePitch = 0
+		settings.DocGridCharSpace = 0
+	}
+
 	// 解析文档网格设置
 	if sectPr.DocGrid != nil {
 		if sectPr.DocGrid.Type != "" {
